@@ -34,6 +34,17 @@
 (*                       initial rule, or absent when there is none         *)
 (*   TableMonotone       rows are created at strictly increasing locations  *)
 (*                                                                         *)
+(* Configurations (spec/cfg): CFI_scan_* (Mode "scan": whole entries are   *)
+(* added; all sections of <= 3 entries + terminator over the scan          *)
+(* alphabets), CFI_prog1/2/3/4_* (Mode "prog": the program of one FDE      *)
+(* grows one instruction at a time from every CIE pre-state; every prefix  *)
+(* is a case), CFI_sim* (Mode "sim": random long programs, -simulate).     *)
+(* Every reachable state that is Complete, WellFormed and whose programs   *)
+(* satisfy Pre is emitted as one case: bytes, ViewScan, ViewTables, the    *)
+(* tables under the known deviation C06.def_cfa_sf (`alt`, only when they  *)
+(* differ) and spec-computed input classes (`flags`) used to tag           *)
+(* disagreements.                                                          *)
+(*                                                                         *)
 (* Not asserted (the standards do not fix them): the key under which 'S'   *)
 (* appears in augmentation_dict; the personality pointer value under pcrel *)
 (* (the library reports the raw value); DW_CFA_set_loc under a non-absptr  *)
